@@ -1,9 +1,15 @@
 HOOK_COMMITS = []
 ENGINES = [
-    {"name": "kernel", "path": "mc/kernel.py", "serves_properties": ["C01", "C05", "C15"], "kind_free_text": "hand-written bounded exhaustive explorer: units enumerate a finite space (alphabet x bound), sharded over a fork pool; recorder counts evaluations/distinct cases/states/transitions/witnesses; replay files; known-findings triage"},
+    {"name": "kernel", "path": "mc/kernel.py", "serves_properties": ["C01", "C05", "C15", "C16"], "kind_free_text": "hand-written bounded exhaustive explorer: units enumerate a finite space (alphabet x bound), sharded over a fork pool; recorder counts evaluations/distinct cases/states/transitions/witnesses; replay files; known-findings triage"},
 ]
 NOT_YET = {}
 CHECKS = {
+    "C16": {
+        "level": "model_checking",
+        "technique": "exhaustive exploration of operation histories (touch/save/saveXML/compile/edit sequences up to a depth bound) on the real TTFont against a clean-path reference, plus exhaustive pipeline x PYTHONHASHSEED x simulated-clock product in separate processes",
+        "text": "All histories up to depth 3 (thorough 4) over an alphabet of table touches, save, saveXML, getTableData, ensureDecompiled and three edits are executed on real fonts in all three lazy modes; after every history the saved bytes and the TTX dump must equal those of the clean path (fresh load, same edits, one save), so any compile-time mutation or order dependence that leaks into later output is caught. Every pipeline (recompile, TTX, feaLib, subset, instancer, varLib.build, merge, TTC, WOFF/WOFF2) is run in separate processes under each enumerated hash seed and clock offset and the output digests compared.",
+        "note": "Derived header fields are refreshed only for loaded tables, so the final observation loads all tables on both paths; hash seeds 0..3 (thorough 0..11) are enumerated, not all seeds; clock is simulated by shifting time.time().",
+    },
     "C01": {
         "level": "model_checking",
         "technique": "explicit-state exploration of the TTFont load/touch/save state machine over a bounded loaded-set lattice, executed on the real implementation (stateless, every state replayed from the source font)",
